@@ -34,7 +34,8 @@ static unsigned long opno;
 /* edits since the last dup (for the return-value expectation) */
 static int last_dup_dst = -1, last_dup_src = -1, n_rep, n_nonrep, n_unsure, n_f13a;
 static unsigned long st_cases, st_ret0, st_ret0_empty, st_ret1, st_f13a, st_entries_S, st_entries_N, st_entries_I,
-    st_entries_T, st_hand, st_hand_fail, st_hand_ok, st_dupnames, st_xml, st_orc_fail_known, st_orc, st_misc, st_restrict, st_allow, st_kind, st_mattr, st_dist, st_xmltopo, st_hetero;
+    st_entries_T, st_hand, st_hand_fail, st_hand_ok, st_dupnames, st_xml, st_orc_fail_known, st_orc, st_misc, st_restrict, st_allow, st_kind, st_mattr, st_dist, st_xmltopo, st_hetero, st_xml_file, st_xml_big;
+static char g_tmpxml[1200];   /* scratch file of the XML-through-a-file round trips */
 
 /* ---------------------------------------------------------------- string buffer */
 typedef struct { char *p; size_t len, cap; } sb_t;
@@ -332,6 +333,54 @@ static void do_pair(int a, int b) {
       }
       st_xml++;
       oracle("xml_roundtrip", okx, "-");
+      /* the same through a file */
+      if (opno % 3 == 1 && g_tmpxml[0]) {
+        int okf = 0;
+        if (hwloc_topology_diff_export_xml(d, ref, g_tmpxml) == 0) {
+          hwloc_topology_diff_t d3 = NULL; char *ref2 = NULL;
+          int lr = hwloc_topology_diff_load_xml(g_tmpxml, &d3, &ref2);
+          okf = lr == 0 && diffs_equal(d, d3) && ((!ref && !ref2) || (ref && ref2 && !strcmp(ref, ref2)));
+          hwloc_topology_diff_destroy(d3); free(ref2);
+        }
+        remove(g_tmpxml);
+        st_xml_file++;
+        oracle("xml_roundtrip_file", okf, "-");
+      }
+      /* a long diff (the exporters size their buffers from a first guess and grow them): the entries of `d` repeated with long
+       * string values until the document is well beyond 16 kB, again through both entry points */
+      if (opno % 5 == 2) {
+        hwloc_topology_diff_t first = NULL, last = NULL; unsigned nbig = 40 + (unsigned) (opno % 7) * 40;
+        char *longv = malloc(400); memset(longv, 'v', 399); longv[399] = 0;
+        for (unsigned k = 0; k < nbig; k++) {
+          hwloc_topology_diff_t e = calloc(1, sizeof *e);
+          e->obj_attr.type = HWLOC_TOPOLOGY_DIFF_OBJ_ATTR; e->obj_attr.obj_depth = (int) (k % 3); e->obj_attr.obj_index = k;
+          e->obj_attr.diff.string.type = (k & 1) ? HWLOC_TOPOLOGY_DIFF_OBJ_ATTR_INFO : HWLOC_TOPOLOGY_DIFF_OBJ_ATTR_NAME;
+          char nm[32]; snprintf(nm, sizeof nm, "Key%u", k);
+          e->obj_attr.diff.string.name = (k & 1) ? strdup(nm) : NULL;
+          e->obj_attr.diff.string.oldvalue = strdup(longv + (k * 7) % 300);
+          e->obj_attr.diff.string.newvalue = strdup(longv + (k * 13) % 350);
+          if (first) last->generic.next = e; else first = e;
+          last = e;
+        }
+        free(longv);
+        int okb = 0; char *bbuf = NULL; int blen = 0;
+        if (hwloc_topology_diff_export_xmlbuffer(first, ref, &bbuf, &blen) == 0 && bbuf) {
+          hwloc_topology_diff_t d3 = NULL; char *ref2 = NULL;
+          int lr = hwloc_topology_diff_load_xmlbuffer(bbuf, blen, &d3, &ref2);
+          okb = lr == 0 && blen > 16384 && (size_t) blen == strlen(bbuf) + 1 && diffs_equal(first, d3) && ((!ref && !ref2) || (ref && ref2 && !strcmp(ref, ref2)));
+          hwloc_topology_diff_destroy(d3); free(ref2);
+          hwloc_free_xmlbuffer(A, bbuf);
+        }
+        if (okb && g_tmpxml[0] && hwloc_topology_diff_export_xml(first, ref, g_tmpxml) == 0) {
+          hwloc_topology_diff_t d3 = NULL; char *ref2 = NULL;
+          int lr = hwloc_topology_diff_load_xml(g_tmpxml, &d3, &ref2);
+          okb = lr == 0 && diffs_equal(first, d3);
+          hwloc_topology_diff_destroy(d3); free(ref2); remove(g_tmpxml);
+        }
+        hwloc_topology_diff_destroy(first);
+        st_xml_big++;
+        oracle("xml_roundtrip_long_diff", okb, "-");
+      }
     }
   }
   free(es);
@@ -372,6 +421,12 @@ static void do_hand(int s, int rev, const char *expect, char **toks, int ntok) {
 static void exec_line(char *line) {
   char *toks[256]; int nt = 0;
   char *cmd_end = strchr(line, '\n'); if (cmd_end) *cmd_end = 0;
+  /* first line of an ops file: which XML back ends this process uses (hwloc reads the variables once per process) */
+  if (!strncmp(line, "xmlbackend ", 11)) {
+    setenv("HWLOC_LIBXML_EXPORT", line[11] == '0' ? "0" : "1", 1);
+    setenv("HWLOC_LIBXML_IMPORT", strlen(line) > 13 && line[13] == '0' ? "0" : "1", 1);
+    return;
+  }
   char *copy = strdup(line);
   /* synth keeps the rest of the line as one argument */
   if (!strncmp(copy, "synth ", 6)) {
@@ -751,21 +806,25 @@ int main(int argc, char **argv) {
     FILE *in = fopen(argv[2], "r"); fmin = fopen(argv[3], "w"); fcout = fopen(argv[4], "w"); forc = fopen(argv[5], "w");
     if (!in || !fmin || !fcout || !forc) return 2;
     static char line[65536];
-    while (fgets(line, sizeof line, in)) { opno++; if (line[0] != '#') exec_line(line); }
+    snprintf(g_tmpxml, sizeof g_tmpxml, "%s.diff.xml", argv[5]);
+    while (fgets(line, sizeof line, in)) { if (!strncmp(line, "xmlbackend ", 11)) { exec_line(line); continue; } opno++; if (line[0] != '#') exec_line(line); }
     fclose(in);
   } else if (argc >= 7) {
     unsigned long ncases = strtoul(argv[1], NULL, 10);
     fops = fopen(argv[2], "w"); fmin = fopen(argv[3], "w"); fcout = fopen(argv[4], "w"); forc = fopen(argv[5], "w");
     if (!fops || !fmin || !fcout || !forc) return 2;
     rng_seed(rng_seed_from_env());
+    snprintf(g_tmpxml, sizeof g_tmpxml, "%s.diff.xml", argv[5]);
+    { unsigned be = (unsigned) (rng_seed_from_env() % 4); char l[32]; snprintf(l, sizeof l, "xmlbackend %u %u", be & 1, (be >> 1) & 1);
+      fprintf(fops, "%s\n", l); exec_line(l); }
     for (unsigned long i = 0; i < ncases; i++) gen_case();
     fclose(fops);
     FILE *fs = fopen(argv[6], "w");
     if (fs) {
       fprintf(fs, "pairs %lu\nret0 %lu\nret0_empty %lu\nret1 %lu\nf13a_null_side %lu\nentries_size %lu\nentries_name %lu\nentries_info %lu\nentries_toocomplex %lu\n"
-              "hand_lists %lu\nhand_failed %lu\nhand_ok %lu\npairs_with_dup_info_names %lu\nxml_roundtrips %lu\noracle_checks %lu\noracle_fail_known_class %lu\nmisc_inserted %lu\nrestricted %lu\nallow_changed %lu\ncpukind_added %lu\nmemattr_set %lu\ndistances_added %lu\nxml_topologies %lu\npairs_with_hetero_distances %lu\n",
+              "hand_lists %lu\nhand_failed %lu\nhand_ok %lu\npairs_with_dup_info_names %lu\nxml_roundtrips %lu\noracle_checks %lu\noracle_fail_known_class %lu\nmisc_inserted %lu\nrestricted %lu\nallow_changed %lu\ncpukind_added %lu\nmemattr_set %lu\ndistances_added %lu\nxml_topologies %lu\npairs_with_hetero_distances %lu\nxml_roundtrips_file %lu\nxml_roundtrips_long_diff %lu\n",
               st_cases, st_ret0, st_ret0_empty, st_ret1, st_f13a, st_entries_S, st_entries_N, st_entries_I, st_entries_T, st_hand, st_hand_fail, st_hand_ok,
-              st_dupnames, st_xml, st_orc, st_orc_fail_known, st_misc, st_restrict, st_allow, st_kind, st_mattr, st_dist, st_xmltopo, st_hetero);
+              st_dupnames, st_xml, st_orc, st_orc_fail_known, st_misc, st_restrict, st_allow, st_kind, st_mattr, st_dist, st_xmltopo, st_hetero, st_xml_file, st_xml_big);
       fclose(fs);
     }
   } else { fprintf(stderr, "usage: diff <ncases> <ops> <model-in> <c-out> <oracle> <stats> | --replay <ops> <model-in> <c-out> <oracle>\n"); return 2; }
